@@ -73,6 +73,9 @@ func C12(j *core.Job) {
 				target := fs[len(fs)-1]
 				pk.target = target.Name
 				pk.inj = gen.Inject(r, target, next)
+				if src, ref := pk.inj.PkgLevelDecls(); src != "" {
+					p.Files[0].AddDecl(src, ref)
+				}
 			}
 			rep.Count("inject_"+pk.inj.Kind, 1)
 			if pk.inj.Control {
@@ -140,7 +143,7 @@ func C12(j *core.Job) {
 			case v[0] == "PANIC":
 				rep.Count("rejected_with_diagnostic", 1)
 				rep.SetAdd("diagnostics", prng.Derive(0, diagClass(v[1])).Seed())
-			case pk.wrongSig || pk.inj.Kind == "go-yield" || pk.inj.Kind == "yield-as-value":
+			case pk.wrongSig || pk.inj.Kind == "go-yield" || pk.inj.Kind == "yield-as-value" || pk.inj.Kind == "yield-as-package-level-value":
 				rep.Count("violations_must_reject_accepted", 1)
 				viol(pk, "accepted a program that has no source-level meaning (must be rejected)", "")
 			default:
